@@ -50,7 +50,7 @@ func checkC11(c *km.Ctx) {
 						continue
 					}
 					hc, hi := callRes(km.Unwrap(pc.Common().Args[0]))
-					if hc == nil || hi != 0 || km.CalleeFull(hc.Common()) != "net.SplitHostPort" || km.Unwrap(hc.Common().Args[0]) != ssa.Value(fn.Params[1]) {
+					if hc == nil || hi != 0 || km.CalleeFull(hc.Common()) != "net.SplitHostPort" || km.Unwrap(hc.Common().Args[0]) != ssa.Value(km.ParamAt(fn, 1)) {
 						continue
 					}
 					// receiver derives from decodeIPV4AddressChoice
